@@ -99,6 +99,9 @@ fn build_validation() -> Validation {
     let mut v = Validation::new(Algorithm::EdDSA);
     v.set_required_spec_claims(&AnyClaims::required_claims());
     v.set_audience(&["snap"]);
+    // jsonwebtoken does not check `nbf` unless asked to: without this a token whose validity window
+    // has not begun yet would be accepted.
+    v.validate_nbf = true;
     v
 }
 
